@@ -3,7 +3,7 @@ Require Import FastZ.
 From Dashu Require Import Base.Prelude Float.RoundSpec Float.Contract Float.Model Float.AddModel.
 From Dashu Require Import Ratio.RatArithModel Int.ModRingSpec Forms.FormsSpec Forms.FormsFloatSpec.
 From Dashu Require Import Int.RingOps Int.BitsKernels Forms.FormsMul Forms.FormsDiv Forms.FormsBits.
-From Dashu Require Import Forms.FormsR3Spec Forms.FormsGcd Forms.FormsGcdInst.
+From Dashu Require Import Forms.FormsR3Spec Forms.FormsGcd Forms.FormsGcdInst Forms.FormsR4Spec.
 Extraction "model.ml"
   iop_spec divrem_spec rem_euclid_spec div_euclid_spec divrem_euclid_spec in_ty try_into big_op out_ty
   prim_right_asis prim_left_asis prim_assign_asis prim_divrem_asis prim_unrepresentable assign_by_taking
@@ -21,4 +21,5 @@ Extraction "model.ml"
   i_div_rem_form i_div_form i_rem_form i_ibig_div_rem_form i_ibig_div_form i_ibig_rem_form
   repr_bitand repr_bitor repr_bitxor ibig_bitand_asis ibig_bitor_asis ibig_bitxor_asis
   repr_shl repr_shl_ref repr_shr repr_shr_ref ibig_shl_asis ibig_shl_ref_asis ibig_shr_asis ibig_shr_ref_asis
-  fadd_form_x ctx_sub_r3_x fsum_asis_x fprod_asis i_gcd_form.
+  fadd_form_x ctx_sub_r3_x fsum_asis_x fprod_asis i_gcd_form
+  fmul_ctx_r4 fdiv_op_r4 fdiv_ctx_r4 fsqr_r4 fcubic_r4 finv_r4.
